@@ -9,6 +9,14 @@ binding holds an i64 (switch arguments: the i64 payload of a variant) with a val
 of a use plus a random constant. Every use site is `pr(id, i64.(name))` (a global function that prints `I id value` through
 vr_i64 and returns the value); uses inside comptime blocks are silent and the value of the whole block is printed.
 
+Identifiers in TYPE positions: a second pool {T, U, u16} of type-valued bindings (type globals `T :: i32;`, `comptime T: type` parameters of the
+global functions, local aliases `T :: i8;`; `u16` is also a built-in), every binding denoting one of i8/i16/u32/i32/i64.  Uses: a cast
+`pr(id, i64.(T.(probe)))`, a local annotation `t : T = C.(probe); pr(id, i64.(t * t))` (C = the type the oracle predicts, written literally), and the
+parameter type / return type in the HEADER of a local lambda (`g :: (a: i64, x7: T) -> T { .. x7 * x7 }`, observed through `r := g(.., C.(probe));
+pr(id, i64.(r * r))`).  The probe has bits 7, 15, 31 and 63 set, so the wrapped values differ for every type and a silently different resolution
+(e.g. the same-named global instead of the comptime parameter) changes the printed number; without a same-named outer binding it shows as a
+spurious `undefined reference`.  A header is looked up where the lambda is declared (enclosing blocks and parameters of the ENCLOSING lambda).
+
 Some programs import a second file that defines a global for every pool name (never visible to a bare identifier of main.capy); some
 statements are assignments `a = ..` whose target is a use like any other.
 
@@ -39,7 +47,9 @@ RULE = ("program = 1..3 global functions (0..3 parameters, some comptime) + main
         "switches with argument (statement and expression form, arms in both orders) / local lambdas / comptime blocks, identifiers drawn from "
         "{a,b,c,d} (weight 4 each) and {u8,nil} (weight 1 each), literal globals for a random subset of the names at random positions of the file; "
         "after a statement that binds names, a use of one of those names follows with probability 1/2 (uses after a switch / block / lambda of the "
-        "names bound inside), a use of the defined name precedes a definition with probability 1/6; assignments to pool names; one program in three imports a "
+        "names bound inside), a use of the defined name precedes a definition with probability 1/6; assignments to pool names; type-position uses of a second pool "
+        "{T,U,u16} (cast, local annotation, parameter and return type in the header of every second local lambda) over type globals, comptime type parameters "
+        "(every second global function), local aliases and the built-in u16; one program in three imports a "
         "file with same-named globals; 30..90 use sites per program; 55 % positive programs (no undefined use, compiled once, run for <= 3 selector values), "
         "30 % negative (only the diagnostics are judged), 15 % mixed (both passes). "
         "non-trivial use = a use site whose verdict was reached (pass-1 diagnostic position and, if executed, printed value); "
@@ -55,14 +65,27 @@ ASSUME = ["a lambda body and a comptime block start from an empty stack of block
           "for the built-in level only the order is judged: a use of `u8` / `nil` with a visible local / parameter / global binding must print that binding's "
           "value; without one the identifier must denote the built-in (observed as `t : u8 = 9` / `t : ?i64 = nil` being accepted and behaving as such) and "
           "must not be reported as undefined",
-          "switch arm patterns, labels, member names and type annotations of parameters never contain pool names (the statement does not say in which scope "
-          "they are looked up)",
+          "the header (parameter types, return type) of a lambda declared inside another lambda's body is part of the ENCLOSING body: its identifiers see the "
+          "enclosing blocks' locals and the enclosing lambda's (comptime) parameters, then globals, then built-ins (the unchanged tree does exactly this: "
+          "`inc :: (x: T) -> T` inside `bump :: (comptime T: type, ..)` sees the parameter, also with a global `T`; a local alias `T :: i16` before the lambda wins "
+          "over both); the nested lambda's BODY does not see them (annotation / cast of `T` there denotes the global `T` or is undefined)",
+          "not generated (lookup scope not fixed by the statement or crashing for other reasons): pool names in the header of a GLOBAL function or of a lambda that "
+          "has comptime parameters of its own (own header parameters come first in capy), local lambdas with comptime parameters (panic in codegen "
+          "functions.rs `try_naive` assertion: C16 matter), type uses inside comptime blocks, switch arm patterns, labels, member names",
           "comptime blocks are not generated inside functions with comptime parameters (find_comptimes hits todo!() there: C06/C16 matter)",
           "a rejection of the pass-2 program counts as a violation only if a diagnostic points at a line that holds a use site; other rejections are generator errors"]
 
 POOL = ["a", "b", "c", "d"]
 BUILTIN = ["u8", "nil"]
 NAME_W = [("a", 4), ("b", 4), ("c", 4), ("d", 4), ("u8", 1), ("nil", 1)]
+# identifiers in TYPE positions: type-valued bindings (type globals `T :: i64;`, comptime type parameters, local aliases `T :: u8;`) of these names;
+# `u16` is also a built-in.  Every binding denotes one of TYPES; which one a use sees is observed through wrapping arithmetic on a probe value.
+TPOOL = ["T", "U"]
+TBUILTIN = ["u16"]
+TNAME_W = [("T", 4), ("U", 4), ("u16", 1)]
+TYPES = ["i8", "i16", "u32", "i32", "i64"]      # what a type binding may denote; written literally in the programs, so no name of either pool (u8, u16) is among them
+ALL_TYPES = TYPES + TBUILTIN                      # what a use may denote
+PROBE = 0x876543218ABC9DE1 - (1 << 64)      # bits 7, 15, 31 and 63 set: the value differs for every type of TYPES after a cast, and so do its wrapped squares
 MAX_BDEPTH = 3
 MAX_DEPTH = 5
 BUILTIN_VALUE = 9
@@ -71,10 +94,39 @@ VIOLATION_CAP = 40
 GHOST_ORDER = ["ended_switch_arm", "ended_block", "ended_lambda", "sibling_branch_of_same_statement", "own_initialiser", "later_in_enclosing_block",
                "later_nested", "across_lambda_boundary", "across_comptime_boundary", "global_of_imported_file"]
 
+
+
+def wrap(v, ty):
+    w = int(ty[1:])
+    v &= (1 << w) - 1
+    return v - (1 << w) if ty[0] == "i" and v >> (w - 1) else v
+
+
+def probe_cast(ty):
+    """i64.(ty.(PROBE))"""
+    return wrap(PROBE, ty)
+
+
+def probe_sq(ty, argty=None):
+    """x : ty = argty.(PROBE); i64.(x * x)       (argty = ty unless a wrong resolution is being decoded)"""
+    c = wrap(wrap(PROBE, argty or ty), ty)
+    return wrap(c * c, ty)
+
+
+def probe_call(c1, c2, argty=None):
+    """h :: (x: c1) -> c2 { x * x } (c2 None: -> i64 { i64.(x * x) });  r := h(argty.(PROBE)); i64.(r * r)   (c2 None: the call's value)"""
+    q = probe_sq(c1, argty)
+    if c2 is None:
+        return q
+    r = wrap(q, c2)
+    return wrap(r * r, c2)
+
+
 HELPERS = """pr :: (id: i64, v: i64) -> i64 { vr_i64(id, v); v }
 bit :: (d: i64) -> bool { (vr_sel() / d) % 2 == 1 }
 E :: enum { X: i64, Y: i64 };
 mk :: (x: bool, v: i64) -> E { if x { E.(E.X.(v)) } else { E.(E.Y.(v)) } }
+mk_u16 :: (v: i64) -> u16 { u16.(v) }
 """
 
 
@@ -95,6 +147,30 @@ class Use:
         self.stack = None
         self.fn = None
         self.is_target = False
+        self.sort = "value"
+        self.form = "value"
+
+
+class TUse(Use):
+    """a pool name in a type position. forms: cast `pr(id, i64.(T.(probe)))`, annot `{ t : T = C.(probe); pr(id, i64.(t * t)) }` (C = the type the oracle
+    predicts), ptype / rtype = parameter type / return type in the header of a local lambda (observed through the lambda's call)"""
+    def __init__(self, name, uid, form):
+        Use.__init__(self, name, uid, 0, False)
+        self.sort = "type"
+        self.form = form
+
+
+class TDef:
+    """local type alias `T :: u8;`"""
+    def __init__(self, name, ty):
+        self.name, self.ty = name, ty
+        self.binding = None
+
+
+class TGlobal:
+    def __init__(self, name, ty):
+        self.name, self.ty = name, ty
+        self.binding = None
 
 
 class Block:
@@ -155,6 +231,9 @@ class Lambda:
     def __init__(self, name, params, body, is_global):
         self.name, self.params, self.body, self.is_global = name, params, body, is_global   # params: [(name, comptime)]
         self.pbind = {}
+        self.tparams = []          # global functions: [(name, type passed by the single call)]  `comptime T: type`
+        self.tx = self.tret = None  # local lambdas: TUse of the extra parameter's type / of the return type (`h :: (.., x7: T) -> T { .. x7 * x7 }`)
+        self.xname = None
 
 
 class Global:
@@ -218,6 +297,16 @@ class Gen:
 
     def name(self):
         return self.rng.weighted(NAME_W)
+
+    def tuse(self, name=None, form=None):
+        self.budget -= 1
+        return TUse(name or self.rng.weighted(TNAME_W), self.new_uid(), form or self.rng.pick(["cast", "annot"]))
+
+    def any_use(self, ctx, name):
+        """a use of `name` of the right sort (None where type uses are not generated)"""
+        if name in TPOOL or name in TBUILTIN:
+            return None if ctx.ct else self.tuse(name)
+        return self.use(ctx, name, 0)
 
     def use(self, ctx, name=None, k=None):
         self.budget -= 1
@@ -287,7 +376,15 @@ class Gen:
         names = self.rng.sample(POOL + BUILTIN, n) if self.rng.chance(1, 5) else self.rng.sample(POOL, n)
         lam = Lambda(f"g{self.new_tmp()}", [(x, False) for x in names], None, False)
         inner = Ctx(ct=False, generic=ctx.generic, bdepth=ctx.bdepth, depth=ctx.depth + 1)
-        lam.body = self.block(inner, True)
+        if self.rng.chance(1, 2):
+            # pool name in the header: looked up where the lambda is declared (enclosing blocks and parameters), not inside the lambda
+            lam.tx = self.tuse(None, "ptype")
+            if self.rng.chance(1, 2):
+                lam.tret = self.tuse(lam.tx.name, "rtype")
+            lam.xname = f"x{self.new_tmp()}"
+            lam.body = self.block(inner, False)
+        else:
+            lam.body = self.block(inner, True)
         return lam
 
     def call(self, ctx, lam):
@@ -302,6 +399,8 @@ class Gen:
         can_branch = ctx.ct or ctx.bdepth < MAX_BDEPTH
         deep = ctx.depth >= MAX_DEPTH
         opts = [("def", 8), ("use", 7), ("assign", 2)]
+        if not ctx.ct:
+            opts += [("tuse", 3), ("tdef", 2)]
         if not deep:
             opts.append(("block", 3))
             if can_branch:
@@ -322,6 +421,13 @@ class Gen:
             st = Def(name, init, rng.pick([":=", "::", ": i64 =", ": i64 :"]))
         elif k == "use":
             st = ExprS(self.use(ctx))
+        elif k == "tuse":
+            st = ExprS(self.tuse())
+        elif k == "tdef":
+            name = rng.weighted(TNAME_W)
+            if rng.chance(1, 6):
+                out.append(ExprS(self.tuse(name)))
+            st = TDef(name, rng.pick(TYPES))
         elif k == "assign":
             target = self.use(ctx, None, 0)
             st = Assign(target, self.expr(ctx.deeper()))
@@ -345,7 +451,9 @@ class Gen:
         out.append(st)
         bound = sorted(bound_names(st))
         if bound and rng.chance(1, 2):
-            out.append(ExprS(self.use(ctx, rng.pick(bound), 0)))
+            u = self.any_use(ctx, rng.pick(bound))
+            if u is not None:
+                out.append(ExprS(u))
         return out
 
     def block(self, ctx, valued, extra_calls=()):
@@ -386,7 +494,7 @@ def children(n):
     if isinstance(n, ExprS):
         return [n.e]
     if isinstance(n, LamDef):
-        return [n.lam.body]
+        return [x for x in (n.lam.tx, n.lam.tret) if x is not None] + [n.lam.body]
     if isinstance(n, While):
         return [n.body]
     if isinstance(n, Assign):
@@ -396,7 +504,7 @@ def children(n):
 
 def bound_names(n):
     out = set()
-    if isinstance(n, Def):
+    if isinstance(n, (Def, TDef)):
         out.add(n.name)
     if isinstance(n, Switch):
         out.add(n.arg)
@@ -422,6 +530,9 @@ def gen_program(rng, budget):
             generic = generic or cp
             params.append((x, cp))
         f = Lambda(f"f{i + 1}", params, None, True)
+        if rng.chance(1, 2):
+            f.tparams = [(rng.weighted(TNAME_W), rng.pick(TYPES))]
+            generic = True
         g.budget = share
         f.body = g.block(Ctx(generic=generic, depth=0), True)
         fns.append(f)
@@ -437,6 +548,8 @@ def gen_program(rng, budget):
     rng.shuffle(items)
     for x in gl_names:
         items.insert(rng.below(len(items) + 1), Global(x, g.new_val()))
+    for x in [x for x in TPOOL if rng.chance(1, 2)] + [x for x in TBUILTIN if rng.chance(1, 6)]:
+        items.insert(rng.below(len(items) + 1), TGlobal(x, rng.pick(TYPES)))
     if imp is not None:
         items.insert(rng.below(len(items) + 1), imp)
     prog = Program(items, main, g.maxbit)
@@ -455,6 +568,16 @@ class Binding:
     def __init__(self, bid, kind, name, scope, pos):
         self.bid, self.kind, self.name, self.scope, self.pos = bid, kind, name, scope, pos
         self.mutable = False
+        self.ty = None           # type-valued bindings: the type they denote
+
+
+def concrete(u, zeroed=()):
+    """the type a type use denotes by the oracle (pass 2 writes `i64` in place of a zeroed use)"""
+    if u.uid in zeroed or u.res == "undef":
+        return "i64"
+    if u.res == "builtin":
+        return u.name
+    return u.res.ty
 
 
 def assignable(u):
@@ -499,14 +622,15 @@ class Model:
             return self.params[name]
         if name in self.globals:
             return self.globals[name]
-        if name in BUILTIN:
+        if name in BUILTIN or name in TBUILTIN:
             return "builtin"
         return "undef"
 
     def resolve(self, prog):
         for it in prog.items:
-            if isinstance(it, Global):
+            if isinstance(it, (Global, TGlobal)):
                 it.binding = self.bind("global", it.name, None, -1)
+                it.binding.ty = getattr(it, "ty", None)
                 self.globals[it.name] = it.binding
             if isinstance(it, Import):
                 for name in it.values:
@@ -514,11 +638,19 @@ class Model:
         for it in prog.items:
             if isinstance(it, Lambda):
                 self.fn = it.name
-                self.generic = any(c for _, c in it.params)
+                self.generic = any(c for _, c in it.params) or bool(it.tparams)
                 self.lambda_(it, None, 0)
         return self
 
     def lambda_(self, lam, parent, ppos):
+        # the header is written in the enclosing body: its identifiers see what an expression at that place sees
+        for hu in (lam.tx, lam.tret):
+            if hu is not None:
+                hidden = self.params
+                if self.mutant == "header_without_outer_params":
+                    self.params = {}
+                self.expr(hu, parent, ppos)
+                self.params = hidden
         saved = (self.frames, self.params, self.ctxkind)
         sc = self.scope("lambda", parent, ppos)
         if self.mutant != "capture":
@@ -528,6 +660,11 @@ class Model:
         self.params = {}
         for name, comptime in lam.params:
             b = self.bind("cparam" if comptime else "param", name, sc, -1)
+            lam.pbind[name] = b
+            self.params[name] = b
+        for name, ty in lam.tparams:
+            b = self.bind("cparam", name, sc, -1)
+            b.ty = ty
             lam.pbind[name] = b
             self.params[name] = b
         self.ctxkind = "fn" if lam.is_global else "lambda"
@@ -561,6 +698,10 @@ class Model:
             st.binding = self.bind("local", st.name, sc, i)
             st.binding.mutable = st.form in (":=", ": i64 =")
             frame[st.name] = st.binding
+        elif isinstance(st, TDef):
+            st.binding = self.bind("local", st.name, sc, i)
+            st.binding.ty = st.ty
+            frame[st.name] = st.binding
         elif isinstance(st, Assign):
             self.expr(st.target, sc, i)
             st.target.is_target = True
@@ -580,10 +721,10 @@ class Model:
         if isinstance(e, Use):
             e.res = self.lookup(e.name)
             e.stack = [f[e.name].kind for f in reversed(self.frames) if e.name in f]
-            e.stack += [t[e.name].kind for t in (self.params, self.globals) if e.name in t] + (["builtin"] if e.name in BUILTIN else [])
-            e.visible = [n for n in POOL + BUILTIN if not isinstance(self.lookup(n), str)]
+            e.stack += [t[e.name].kind for t in (self.params, self.globals) if e.name in t] + (["builtin"] if e.name in BUILTIN + TBUILTIN else [])
+            e.visible = [n for n in (TPOOL + TBUILTIN if e.sort == "type" else POOL + BUILTIN) if not isinstance(self.lookup(n), str)]
             e.scope, e.pos, e.fn = sc, i, self.fn
-            e.ctx = ("comptime" if e.ct else self.ctxkind) + ("/generic" if self.generic else "")
+            e.ctx = ("comptime" if e.ct else self.ctxkind) + ("/generic" if self.generic else "") + ("" if e.sort == "value" else "/type:" + e.form)
             self.uses.append(e)
         elif isinstance(e, Block):
             self.block(e, sc, i)
@@ -731,6 +872,13 @@ class Interp:
         if isinstance(e, Foreign):
             self.events[e.oid] = self.prog.imp.values[e.name]
             return self.events[e.oid]
+        if isinstance(e, TUse):
+            if e.uid in self.zeroed or e.res == "undef":
+                v = 0
+            else:
+                v = probe_cast(concrete(e)) if e.form == "cast" else probe_sq(concrete(e))
+            self.events[e.uid] = v
+            return v
         if isinstance(e, Use):
             if e.uid in self.zeroed or e.res == "undef":
                 base, k = 0, e.k
@@ -762,6 +910,8 @@ class Interp:
             for (name, _), v in zip(e.lam.params, vals):
                 self.env[e.lam.pbind[name].bid] = v
             v = self.block(e.lam.body)
+            if e.lam.tx is not None:
+                v = probe_call(concrete(e.lam.tx, self.zeroed), concrete(e.lam.tret, self.zeroed) if e.lam.tret is not None else None)
             self.events[e.oid] = v
             return v
         raise AssertionError(e)
@@ -801,6 +951,19 @@ class Render:
 
     def use(self, u):
         w = self.wr
+        if u.sort == "type":
+            probe = f"vr_opaque_i64(0 - {-PROBE})"
+            if u.uid in self.zeroed:
+                w.w(f"pr({u.uid}, 0)")
+            elif u.form == "cast":
+                w.w(f"pr({u.uid}, i64.(")
+                self.mark(u)
+                w.w(f"{u.name}.({probe})))")
+            else:
+                w.w(f"{{ t{u.uid} : ")
+                self.mark(u)
+                w.w(f"{u.name} = {concrete(u)}.({probe}); pr({u.uid}, i64.(t{u.uid} * t{u.uid})) }}")
+            return
         if u.uid in self.zeroed:
             w.w("i64.(0)" if u.ct else f"pr({u.uid}, 0)")
         elif u.res == "builtin":
@@ -860,12 +1023,22 @@ class Render:
             self.expr(e.body)
             w.w(")")
         elif isinstance(e, Call):
-            w.w(f"pr({e.oid}, {e.lam.name}(")
-            for i, a in enumerate(e.args):
-                if i:
+            lam = e.lam
+            squared = lam.tx is not None and lam.tret is not None
+            w.w(f"{{ r{e.oid} := {lam.name}(" if squared else f"pr({e.oid}, {lam.name}(")
+            first = True
+            for _, ty in lam.tparams:
+                w.w(("" if first else ", ") + ty)
+                first = False
+            for a in e.args:
+                if not first:
                     w.w(", ")
+                first = False
                 self.expr(a)
-            w.w("))")
+            if lam.tx is not None:
+                c1 = concrete(lam.tx, self.zeroed)      # `u16` may be shadowed between the lambda and its call: the built-in is reached through a global helper
+                w.w(("" if first else ", ") + (f"mk_u16(vr_opaque_i64(0 - {-PROBE}))" if c1 in TBUILTIN else f"{c1}.(vr_opaque_i64(0 - {-PROBE}))"))
+            w.w(f"); pr({e.oid}, i64.(r{e.oid} * r{e.oid})) }}" if squared else "))")
         else:
             raise AssertionError(e)
 
@@ -900,6 +1073,8 @@ class Render:
         elif isinstance(st, LamDef):
             self.lambda_(st.lam)
             w.w(";")
+        elif isinstance(st, TDef):
+            w.w(f"{st.name} :: {st.ty};")
         elif isinstance(st, Assign):
             t = st.target
             if t.uid in self.zeroed:
@@ -927,8 +1102,29 @@ class Render:
             self.wr.w("main :: () -> i32 ")
             self.block(lam.body, extra_last="0")
             return
-        self.wr.w(f"{lam.name} :: ({ps}) -> i64 ")
-        self.block(lam.body)
+        w = self.wr
+        ps = ", ".join([f"comptime {n}: type" for n, _ in lam.tparams] + ([ps] if ps else []))
+        if lam.tx is None:
+            w.w(f"{lam.name} :: ({ps}) -> i64 ")
+            self.block(lam.body)
+            return
+        w.w(f"{lam.name} :: ({ps}{', ' if ps else ''}{lam.xname}: ")
+        self.header_use(lam.tx)
+        w.w(") -> ")
+        if lam.tret is None:
+            w.w("i64 ")
+            self.block(lam.body, extra_last=f"i64.({lam.xname} * {lam.xname})")
+        else:
+            self.header_use(lam.tret)
+            w.w(" ")
+            self.block(lam.body, extra_last=f"{lam.xname} * {lam.xname}")
+
+    def header_use(self, u):
+        if u.uid in self.zeroed:
+            self.wr.w("i64")
+        else:
+            self.mark(u)
+            self.wr.w(u.name)
 
     def program(self):
         w = self.wr
@@ -937,6 +1133,8 @@ class Render:
                 w.nl()
             if isinstance(it, Global):
                 w.w(f"{it.name} : i64 : {it.value};")
+            elif isinstance(it, TGlobal):
+                w.w(f"{it.name} :: {it.ty};")
             elif isinstance(it, Import):
                 w.w('o :: #import("o.capy");')
             else:
@@ -956,7 +1154,10 @@ def build_case(seed, idx, budget, mutant=None):
     if mode == "positive":
         for u in model.uses:
             if u.res == "undef":
-                u.name = rng.pick(u.visible) if u.visible else rng.pick(BUILTIN)
+                u.name = rng.pick(u.visible) if u.visible else rng.pick(TBUILTIN if u.sort == "type" else BUILTIN)
+        for n in walk_all(prog):
+            if isinstance(n, LamDef) and n.lam.tret is not None:
+                n.lam.tret.name = n.lam.tx.name          # one name for parameter type and return type
         model = Model(mutant).resolve(prog)
     text1 = Render(prog, set(), True).program()
     pred_undef = {u.uid for u in model.uses if u.res == "undef"}
@@ -970,11 +1171,22 @@ def build_case(seed, idx, budget, mutant=None):
                             "pred": u.res if isinstance(u.res, str) else u.res.kind, "stack": list(u.stack), "ghosts": ghosts(u, model.bindings), "silent": bool(u.ct or (u.is_target and assignable(u))),
                             "bid": None if isinstance(u.res, str) else u.res.bid,
                             "rel": {str(b.bid): relation(b, u) for b in model.bindings if b.name == u.name}}
+        if u.sort == "type":
+            tc = {}
+            for b in model.bindings:
+                if b.name == u.name and b.ty is not None:
+                    tc.setdefault(b.ty, []).append(f"{b.kind}:{relation(b, u)}")
+            if u.name in TBUILTIN:
+                tc.setdefault(u.name, []).append("builtin")
+            uses[str(u.uid)].update({"sort": "type", "form": u.form, "want_ty": concrete(u), "tcands": tc})
     bindings = {str(b.bid): {"kind": b.kind, "name": b.name} for b in model.bindings}
-    obs = {}
+    obs, tcalls = {}, {}
     for n in walk_all(prog):
         if isinstance(n, Comptime):
             obs[str(n.oid)] = "comptime"
+        elif isinstance(n, Call) and n.lam.tx is not None:
+            obs[str(n.oid)] = "typed_call"
+            tcalls[str(n.oid)] = [str(x.uid) for x in (n.lam.tx, n.lam.tret) if x is not None]
         elif isinstance(n, Call):
             obs[str(n.oid)] = "call"
         elif isinstance(n, Foreign):
@@ -983,7 +1195,7 @@ def build_case(seed, idx, budget, mutant=None):
     if prog.imp is not None:
         extra["o.capy"] = "".join(f"{k} : i64 : {v};\n" for k, v in prog.imp.values.items())
     return {"seed": seed, "idx": idx, "mode": mode, "text1": text1, "pred_undef": sorted(pred_undef), "sels": sels, "uses": uses, "bindings": bindings,
-            "obs": obs, "extra_files": extra, "_prog": prog, "_mutant": mutant}
+            "obs": obs, "tcalls": tcalls, "extra_files": extra, "_prog": prog, "_mutant": mutant}
 
 
 def walk_all(prog):
@@ -1122,9 +1334,18 @@ def judge(case, o):
         if not u["ghosts"]:
             bump(f"use without invisible same-named bindings -> {verdict}")
 
+    def type_violation(u, ty, have, want, sel, k, what):
+        cands = u["tcands"].get(ty) if ty else None
+        desc = cands[0] if cands else (f"type_{ty}" if ty else "unknown_value")
+        viol.append({"key": "wrong_type_binding", "sig": f"wrong_type_binding|{u['ctx']}|expected={u['pred']}|observed={desc}",
+                     "what": f"{name} sel={sel}: `{u['name']}` at {u['line']}:{u['col']} ({u['ctx']}) must denote the {u['pred']} binding = {u['want_ty']} "
+                             f"(expected output {want}), but {what} prints {have}: that is {ty or 'no type of the universe'}"
+                             + (f", the type of: {cands}" if cands else ""), "witness": wit({"pass": 2, "sel": sel, "use": k})})
+        bump("wrong_type_binding")
+
     def wit(extra=None):
         w = {"files": dict(case["extra_files"], **{"main.capy": case["text1"]}), "seed": case["seed"], "idx": case["idx"], "mode": case["mode"], "pred_undef": case["pred_undef"], "sels": case["sels"],
-             "uses": case["uses"], "bindings": case["bindings"], "obs": case["obs"]}
+             "uses": case["uses"], "bindings": case["bindings"], "obs": case["obs"], "tcalls": case.get("tcalls", {})}
         if o.get("text2"):
             w["files"]["pass2.capy"] = o["text2"]
             w["exp"] = o["exp"]
@@ -1231,6 +1452,26 @@ def judge(case, o):
             if k not in got:
                 continue
             have = got[k]
+            if case["obs"].get(k) == "typed_call":
+                hus = [h for h in case["tcalls"][k] if h not in zeroed]
+                if have == want:
+                    bump("typed_lambda_calls_agreeing")
+                    for h in hus:
+                        if h not in seen_use:
+                            seen_use.add(h)
+                            tuples.append((uses[h]["ctx"], tuple(uses[h]["stack"]), tuple(uses[h]["ghosts"]), uses[h]["pred"]))
+                            scenario(uses[h], "printed the value of the predicted binding")
+                            bump(f"resolved kind {uses[h]['pred']} ({uses[h]['ctx']})")
+                elif hus:
+                    bad_here = True
+                    u = uses[hus[0]]
+                    both = len(case["tcalls"][k]) == 2
+                    found = [(a, b) for a in ALL_TYPES for b in (ALL_TYPES if both else [None]) if probe_call(a, b, u["want_ty"]) == have]
+                    found.sort(key=lambda ab: (ab[0] != ab[1], ab[0] not in u["tcands"]))      # several wide types give the same number: name one a same-named binding has
+                    type_violation(u, found[0][0] if found else None, have, want, sel, hus[0],
+                                   f"the call of the lambda whose header names `{u['name']}` (parameter type{' and return type' if both else ''})"
+                                   + (f" behaves like ({found[0][0]}) -> {found[0][1] or 'i64'}" if found else ""))
+                continue
             if k in case["obs"]:
                 if have != want:
                     bad_here = True
@@ -1255,6 +1496,11 @@ def judge(case, o):
                     bump(f"resolved kind {u['pred']} ({u['ctx']})")
                 continue
             bad_here = True
+            if u.get("sort") == "type":
+                tys = [t for t in ALL_TYPES if (probe_cast(t) if u["form"] == "cast" else probe_sq(t, u["want_ty"])) == have]
+                ty = next((t for t in tys if t in u["tcands"]), tys[0] if tys else None)
+                type_violation(u, ty, have, want, sel, k, "the " + ("cast" if u["form"] == "cast" else "annotated local"))
+                continue
             owners = exp["vals"].get(str(have), [])
             if owners:
                 b = case["bindings"][str(owners[0])]
@@ -1345,7 +1591,7 @@ def replay(path):
     # the recorded program is re-judged with the recorded expectations (no generator involved)
     case = {"seed": wit["seed"], "idx": wit["idx"], "text1": wit["files"]["main.capy"], "mode": wit.get("mode", "mixed"), "pred_undef": wit["pred_undef"],
             "sels": wit.get("sels") or list(range(wit.get("nsel", 1))),
-            "uses": wit["uses"], "bindings": wit["bindings"], "obs": wit["obs"],
+            "uses": wit["uses"], "bindings": wit["bindings"], "obs": wit["obs"], "tcalls": wit.get("tcalls", {}),
             "extra_files": {k: v for k, v in wit["files"].items() if k not in ("main.capy", "pass2.capy")}}
     regenerated = build_case(wit["seed"], wit["idx"], C.Rng(wit["seed"], 40000 + wit["idx"]).range(30, 90))
     if regenerated["text1"] == case["text1"]:
